@@ -130,7 +130,10 @@ pub fn for_property(prop: &str) -> Vec<Family> {
             f("mix", "all operation kinds, all pools", g_mix, Q / 4, T / 4),
             sw("fsync-drop-sweep", "the owner drops the future_sync future when the queue's runner is at each of its scheduling points on the way to, inside and past the slot", gen_fsync_drop_sweep, Q / 4, T / 4, 64),
         ],
-        "C10" => vec![f("isolate", "k objects blocked on gates that stay closed, pool maximum above the number of stalled threads, other objects must finish before the gates open", gen_isolate, Q, T)],
+        "C10" => vec![
+            f("isolate", "k objects blocked on gates that stay closed, pool maximum above the number of stalled threads, other objects must finish before the gates open", gen_isolate, Q * 7 / 8, T * 7 / 8),
+            f("isolate-raise", "work piles up on several objects while no pool thread is allowed; set_max_threads then raises the maximum above the number of jobs that stall a thread: the other objects must finish", gen_isolate_raise, Q / 8, T / 8),
+        ],
         "C11" => vec![
             f("pipe-in", "pipe_in with items arriving before/during/after polls (single items and bursts), concurrent sync/desync/futures on the target (awaited, detached, polled once and abandoned), the target dropped while the stream is open", gen_pipe_in, Q / 2, T / 2),
             f("pipe-chain-out", "pipe_in fed by the output stream of a pipe (and pipe into pipe), run to the end", gen_pipe_chain_out, Q / 8, T / 8),
